@@ -38,7 +38,8 @@ ASSUMPTIONS = ["floats are reals during the symbolic search; the oracle uses a r
 OUTSIDE = ["symbolic contents jointly with symbolic scale", "iter_cells(coord_ranges=...) "
            "(documented as unstable on edges)", "histograms of more than DIM dimensions"]
 
-AX = [[0, 1, 3, 6], [10, 12, 15, 19], [-1, 0, 2, 5]]
+# one more edge than NB + 1 bins need (check_hist_to_graph / check_iterators / check_to_csv use up to NB + 1 bins)
+AX = [[0, 1, 3, 6, 10], [10, 12, 15, 19, 24], [-1, 0, 2, 5, 9]]
 
 
 def mkhist(dim, n0, n1, n2, off, neg):
